@@ -101,6 +101,16 @@ impl Metrics {
             .inc_by(n as u64);
     }
 
+    #[cfg(feature = "verif")]
+    pub(crate) fn verif_outbound_udp_sockets(&self) -> i64 {
+        self.outbound_udp_sockets.get()
+    }
+
+    #[cfg(feature = "verif")]
+    pub(crate) fn verif_collect(&self) -> String {
+        String::from_utf8_lossy(&self.collect().1).to_string()
+    }
+
     fn collect(&self) -> (String, Bytes) {
         let encoder = prometheus::TextEncoder::new();
 
